@@ -193,17 +193,28 @@ Proof.
   destruct (Gen.assoc (snd f) pm); [reflexivity|]. rewrite (forall2_len _ _ _ F). apply IH.
   apply Forall2_app; auto. constructor; [apply same_shape_refl|constructor].
 Qed.
+Lemma has_field_of_shape st l l' : Forall2 same_shape l l' -> Gen.has_field_of st l = Gen.has_field_of st l'.
+Proof.
+  induction 1 as [|p p' l l' (R & P & S & Sf) F IH]; [reflexivity|]. unfold Gen.has_field_of in *. simpl. rewrite Sf, IH. reflexivity.
+Qed.
+Lemma pass2_loop_rel : forall fuel ss ss' pm provs q k, Forall2 same_shape ss ss' -> Forall2 same_shape provs q ->
+  rel_res (Gen.pass2_loop fuel pm provs ss k) (Gen.pass2_loop fuel pm q ss' k).
+Proof.
+  induction fuel as [|fuel IH]; intros ss ss' pm provs q k Fs F; simpl; [reflexivity|].
+  destruct Fs as [|s s' l l' (R & P & S & Sf) Fs]; [split; auto|].
+  rewrite <- R, <- Sf. destruct (hd_error (Gen.requires s)) as [st|]; [|reflexivity].
+  destruct (Gen.assoc st pm).
+  - pose proof (add_fields_rel st (Gen.sfields s) pm provs q F) as A. unfold rel_res in A.
+    destruct (Gen.add_fields pm provs st (Gen.sfields s)) as [[a1 l1]|e1]; destruct (Gen.add_fields pm q st (Gen.sfields s)) as [[a2 l2]|e2]; try contradiction.
+    + destruct A as (-> & A). apply IH; auto.
+    + exact A.
+  - rewrite (has_field_of_shape st l l' Fs), (forall2_len _ _ _ Fs).
+    destruct (Gen.has_field_of st l' && Nat.leb k (length l')); [|reflexivity].
+    apply IH; auto. apply Forall2_app; auto. constructor; [repeat split; auto|constructor].
+Qed.
 Lemma pass2_rel : forall ss ss' pm provs q, Forall2 same_shape ss ss' -> Forall2 same_shape provs q ->
   rel_res (Gen.pass2 pm provs ss) (Gen.pass2 pm q ss').
-Proof.
-  intros ss ss' pm provs q Fs. revert pm provs q. induction Fs as [|s s' l l' (R & P & S & Sf) Fs IH]; intros pm provs q F; simpl; [split; auto|].
-  rewrite <- R, <- Sf. destruct (hd_error (Gen.requires s)) as [st|]; [|reflexivity].
-  destruct (Gen.assoc st pm); [|reflexivity].
-  pose proof (add_fields_rel st (Gen.sfields s) pm provs q F) as A. unfold rel_res in A.
-  destruct (Gen.add_fields pm provs st (Gen.sfields s)) as [[a1 l1]|e1]; destruct (Gen.add_fields pm q st (Gen.sfields s)) as [[a2 l2]|e2]; try contradiction.
-  - destruct A as (-> & A). apply IH. exact A.
-  - exact A.
-Qed.
+Proof. intros ss ss' pm provs q Fs F. unfold Gen.pass2. rewrite (forall2_len _ _ _ Fs). apply pass2_loop_rel; auto. Qed.
 Lemma filter_shape l l' : Forall2 same_shape l l' -> Forall2 same_shape (filter Gen.isstruct l) (filter Gen.isstruct l').
 Proof. induction 1 as [|p p' l l' (R & P & S & Sf) F IH]; simpl; [constructor|]. rewrite <- S. destruct (Gen.isstruct p) eqn:Es; auto. constructor; auto. repeat split; auto. congruence. Qed.
 
